@@ -5,6 +5,10 @@ V=$(cd "$(dirname "$0")/.." && pwd)
 src=/tmp/wt-$prop/seeded/$v
 if [ -f "$src/demo_test.go.txt" ]; then
 	dir=$(head -5 "$src/demo_test.go.txt" | grep -oE '(internal|lib)/[a-z]+(/[a-z]+)*' | head -1)
+	# "lib/x/seeded_a_demo_test.go" matches as lib/x/seeded: keep only an existing directory
+	while [ -n "$dir" ] && [ ! -d "/repo/$dir" ]; do
+		case "$dir" in */*) dir=${dir%/*} ;; *) dir= ;; esac
+	done
 	if [ -z "$dir" ]; then
 		pk=$(grep -m1 '^package ' "$src/demo_test.go.txt" | awk '{print $2}')
 		case "$pk" in main) dir=. ;; *) dir=$(cd /repo && grep -rl --include='*.go' "^package $pk\$" . | head -1 | xargs dirname | sed 's#^\./##') ;; esac
